@@ -5,7 +5,7 @@
    Part 4 (here): the property theorems, for all op sequences with valid frees. *)
 From Coq Require Import ZArith List Bool Lia ZifyBool Permutation.
 From BV Require Import Lib.PyVal Gen.K_heap Gen.G_heap Model.Heap.
-From BV Require Import Proofs.HeapLib Proofs.HeapIdx Proofs.HeapGeo Proofs.HeapInv.
+From BV Require Import Proofs.HeapLib Proofs.HeapIdx Proofs.HeapGeo Proofs.HeapRe Proofs.HeapInv.
 Import ListNotations.
 Open Scope Z_scope.
 
@@ -68,6 +68,11 @@ Proof. intros; split; reflexivity. Qed.
 
 Lemma gen_search : G_heap.search_is_bisect_left = true.
 Proof. reflexivity. Qed.
+
+(* the lock created by Heap.__init__ is of the kind the model assumes (not re-entrant), and free()
+   takes it with a non-blocking acquire whose failure branch is the append to the pending list *)
+Lemma gen_lock : G_heap.lock_reentrant = Heap.lock_reentrant /\ G_heap.free_trylock = true.
+Proof. split; reflexivity. Qed.
 
 (* ------------------------------------------------------------------ *)
 (* Part 4: the property theorems                                        *)
@@ -244,8 +249,10 @@ Proof.
 Qed.
 
 (* ... and at the next malloc/free it has exactly the effect of an immediate free *)
+Definition plain_op (o : op) : Prop := match o with Malloc _ | Free _ => True | _ => False end.
+
 Theorem deferred_equals_immediate pg h b o : HeapInv h -> pending h = [] ->
-  In b (alloc h) -> (forall c, o <> FreeDeferred c) ->
+  In b (alloc h) -> plain_op o ->
   step pg (free_deferred h b) o = (do xh <- step pg h (Free b); step pg (snd xh) o).
 Proof.
   intros HI Hp Hb Ho.
@@ -254,7 +261,7 @@ Proof.
   assert (Hd : drain hf = OK hf).
   { unfold drain. rewrite Hpf. cbn [rev drain_list]. rewrite (set_pending_nil hf Hpf). reflexivity. }
   cbn [step]. rewrite Ef. cbn [bind snd].
-  destruct o as [n|c|c]; [| |exfalso; eapply Ho; reflexivity]; cbn [step].
+  destruct o as [n|c|c|n p v|c p v]; try contradiction; cbn [step].
   - unfold malloc. destruct ((n <? 0) || (maxsize <=? n)); [reflexivity|].
     rewrite (drain_deferred h b Hp), Ef, Hd. reflexivity.
   - unfold free. rewrite (drain_deferred h b Hp), Ef, Hd. reflexivity.
@@ -333,4 +340,27 @@ Proof.
   intros H1 H2 Har Hal x. split.
   - apply free_canonical_incl; assumption.
   - apply free_canonical_incl; [assumption|assumption|congruence|]. intros b; symmetry; apply Hal.
+Qed.
+
+(* ---- the re-entrant free ----------------------------------------------------------
+   free(v) issued by the thread that is inside malloc(n) / free(b) (a finaliser run by the
+   garbage collector): with the lock the code creates, at whichever point of the outer call
+   it happens, it is a deferred free -- placed before the outer call if the pending list has
+   not been drained yet, after it otherwise. *)
+Theorem nested_free_in_malloc pg p v h n :
+  malloc_re lock_reentrant pg (Some (p, v)) h n =
+  if rpoint_eqb p RLocked then malloc pg (free_deferred h v) n
+  else do bh <- malloc pg h n; OK (fst bh, free_deferred (snd bh) v).
+Proof.
+  unfold lock_reentrant. destruct p; cbn [rpoint_eqb];
+    [apply malloc_re_locked|apply malloc_re_post; discriminate ..].
+Qed.
+
+Theorem nested_free_in_free p v h b :
+  free_re lock_reentrant (Some (p, v)) h b =
+  if rpoint_eqb p RLocked then free (free_deferred h v) b
+  else do h' <- free h b; OK (free_deferred h' v).
+Proof.
+  unfold lock_reentrant. destruct p; cbn [rpoint_eqb];
+    [apply free_re_locked|apply free_re_post; discriminate ..].
 Qed.
